@@ -582,19 +582,49 @@ def scope_reference_matrix():
     return out
 
 
+def value_grid():
+    """Every arithmetic / bitwise / shift / comparison operator over a grid of operand VALUES (signs, fractions, powers of two
+    around 2^31 / 2^32 / 2^52 / 2^53, large magnitudes): truncation towards zero, fmod's sign rule, two's-complement bitwise
+    results, shift counts modulo 64, the safe-integer rule."""
+    vals = [0, 1, -1, 2, 3, -3, 7, -8, 0.5, -0.5, 2.5, -7.75, 31, 32, 33, 63, 64, 65, 2 ** 31 - 1, 2 ** 31, -(2 ** 31), 2 ** 32, 2 ** 32 + 1,
+            2 ** 52, 2 ** 53 - 1, -(2 ** 53 - 1), 2 ** 53, 1e10, -1e10, 1e300]
+
+    def lit(v):
+        if v < 0:
+            return ("un", "-", lit(-v))
+        if isinstance(v, float) and v != int(v):
+            return ("num", repr(v))
+        if abs(v) >= 1e21:
+            return ("num", "1e300")
+        return ("num", str(int(v)))
+    out = []
+    for op in ("+", "-", "*", "/", "%", "&", "|", "^", "<<", ">>", "<", "<=", "==", "!=", ">", ">="):
+        for a in vals:
+            for b in vals:
+                if op in ("<<", ">>") and not (b in (0, 1, 2, 3, 7, 31, 32, 33, 63, 64, 65, -1, 0.5, 2 ** 31)):
+                    continue
+                out.append(("bin:" + op, ("bin", op, lit(a), lit(b))))
+    for op in ("-", "+", "~", "!"):
+        for a in vals:
+            out.append(("un:" + op, ("un", op, lit(a))))
+    return out
+
+
 def matrix_shard(args):
     which, i, k = args
     from checks import c09
     agg = Agg()
     ev = Ev(agg)
     try:
-        cases = (call_matrix() if which == "call" else scope_reference_matrix())[i::k]
+        cases = (call_matrix() if which == "call" else value_grid() if which == "values" else scope_reference_matrix())[i::k]
         for name, tree in cases:
             if which == "scope" and c09.scope_faults(tree):
                 agg.count("scope_matrix_statically_rejected")
                 continue
             m = compare_with_model(agg, ev, tree, which + "_matrix", modes=("min",))
             agg.add(which + "_matrix_cells", (name.split("/")[0] if which == "scope" else name, m[0] if m[0] != "E" else m[1]))
+            if which == "values":
+                agg.count("value_grid:" + (m[0] if m[0] != "E" else m[1]))
     finally:
         ev.close()
     return agg
@@ -644,7 +674,7 @@ def run(tier, seed):
     nw = 3_200 if quick else 100_000
     for a in common.pmap(tower_shard, [(seed * 1949 + i, nw // 16) for i in range(16)]):
         total.merge(a)
-    for a in common.pmap(matrix_shard, [("call", i, 16) for i in range(16)] + [("scope", i, 4) for i in range(4)]):
+    for a in common.pmap(matrix_shard, [("call", i, 16) for i in range(16)] + [("scope", i, 4) for i in range(4)] + [("values", i, 12) for i in range(12)]):
         total.merge(a)
     for a in common.pmap(templates_shard, [(seed, 0)]):
         total.merge(a)
@@ -661,7 +691,8 @@ def run(tier, seed):
             "nesting towers (objects nested 1-5 deep through 10 carriers, the innermost reading $ / self in 8 reader positions, "
             "the outermost optionally extended); call-binding matrix (functions of 0-4 parameters x every mask of defaulted parameters - "
             "defaults reading earlier and later parameters - x every positional count x every subset of the rest bound by name in both "
-            "orders, as local function / function value / method, plus unknown-name and bound-twice errors); scope-reference matrix "
+            "orders, as local function / function value / method, plus unknown-name and bound-twice errors); operator value grid (16 binary + 4 unary operators over 30 operand values: signs, fractions, "
+            "powers of two around 2^31 / 2^32 / 2^52 / 2^53, shift counts around 32 and 64); scope-reference matrix "
             "(binder i's value mentions binder j for all i, j in locals, object locals around the fields, object-comprehension locals "
             "before/after the field, parameter defaults, comprehension variables). distinct_nontrivial = distinct generated programs on which both printings agreed with the "
             "model + templates.")
